@@ -1167,6 +1167,45 @@ func (st *e2State) judgeStability(fn *Func, src taintSrc) {
 		key := pathName(src.path) + " by " + full
 		switch full {
 		case "sort.Stable", "sort.SliceStable", "slices.SortStableFunc":
+			// a stable sort leaves ties in input order, which here is map order: a comparator
+			// that orders by an attribute looked up in a side table (less: m[xs[i]] < m[xs[j]])
+			// ties for distinct elements that share the attribute
+			if len(call.Args) == 2 {
+				if lit, ok := comparatorLit(fn, call.Args[1]); ok && lit.Type.Params != nil {
+					params := map[types.Object]bool{}
+					for _, f := range lit.Type.Params.List {
+						for _, nm := range f.Names {
+							params[info.ObjectOf(nm)] = true
+						}
+					}
+					derived := ""
+					ast.Inspect(lit.Body, func(k ast.Node) bool {
+						ix, ok := k.(*ast.IndexExpr)
+						if !ok || derived != "" {
+							return derived == ""
+						}
+						if _, isMap := info.TypeOf(ix.X).Underlying().(*types.Map); !isMap {
+							return true
+						}
+						usesParam := false
+						ast.Inspect(ix.Index, func(z ast.Node) bool {
+							if id, ok := z.(*ast.Ident); ok && params[info.ObjectOf(id)] {
+								usesParam = true
+							}
+							return !usesParam
+						})
+						if usesParam {
+							derived = exprStr(ix)
+						}
+						return true
+					})
+					if derived != "" {
+						st.r.Add("E2.stable-sort", fn.Name, key, p.Pos(call), Violated,
+							"the slice is in map iteration order ("+src.why+") and the stable sort orders it by an attribute looked up in a side table ("+derived+"): distinct elements that share the attribute tie and stay in map iteration order", true)
+						return true
+					}
+				}
+			}
 			st.r.Add("E2.stable-sort", fn.Name, key, p.Pos(call), OK, "stable: equal keys keep the order in which they were appended", true)
 		case "sort.Strings", "sort.Ints", "sort.Float64s", "slices.Sort":
 			st.r.Add("E2.stable-sort", fn.Name, key, p.Pos(call), OK, "elements that compare equal are identical", true)
